@@ -27,6 +27,7 @@ CONSTANTS
   MaxWords = %(maxwords)d
   MaxList = %(maxlist)d
   MaxTables = %(maxtables)d
+  OrdinaryLists = %(ordinary)s
   Variants = %(variants)s
   Palette = FALSE
   Free = FALSE
@@ -47,8 +48,8 @@ CLEAN_ACTIONS = ["Word", "OpenStyle", "CloseStyle", "PlainLink", "OpenLink", "Cl
                  "End"]
 
 
-def cfg(maxprod, maxwords=3, maxlist=3, maxtables=1, variants=False, maxline=100, minout=0, emit=True, ntargets=4):
-    return (CFG.replace("NTargets = 4", "NTargets = %d" % ntargets)) % dict(maxprod=maxprod, maxwords=maxwords, maxlist=maxlist, maxtables=maxtables,
+def cfg(maxprod, maxwords=3, maxlist=3, maxtables=1, variants=False, maxline=100, minout=0, emit=True, ntargets=4, ordinary=True):
+    return (CFG.replace("NTargets = 4", "NTargets = %d" % ntargets)) % dict(maxprod=maxprod, maxwords=maxwords, maxlist=maxlist, maxtables=maxtables, ordinary=str(ordinary).upper(),
                       variants=str(variants).upper(), maxline=maxline, minout=minout, emit=str(emit).upper())
 
 
